@@ -1,3 +1,2 @@
 #include "sim.h"
 int engine_util_api(RBuf &rq) { return 99; }
-int engine_c14(RBuf &rq) { return 99; }
